@@ -94,7 +94,11 @@ func (s *Netceptor) listen(ctx context.Context, service string, tlscfg *tls.Conf
 		if tlscfg.ClientAuth == tls.RequireAndVerifyClientCert {
 			tlscfg.GetConfigForClient = func(hi *tls.ClientHelloInfo) (*tls.Config, error) {
 				clientTLSCfg := tlscfg.Clone()
+				// the node the packets claim to come from (node IDs may themselves contain ':')
 				remoteNode := strings.Split(hi.Conn.RemoteAddr().String(), ":")[0]
+				if remoteAddr, ok := hi.Conn.RemoteAddr().(Addr); ok {
+					remoteNode = remoteAddr.node
+				}
 				clientTLSCfg.VerifyPeerCertificate = ReceptorVerifyFunc(tlscfg, [][]byte{}, remoteNode, ExpectedHostnameTypeReceptor, VerifyClient, s.Logger)
 
 				return clientTLSCfg, nil
